@@ -372,6 +372,18 @@ class Interp:
         if len(dc.generators) != 1:
             raise Unsupported("dict comprehension with several generators")
         g = dc.generators[0]
+        if norm(g.iter) in (f"{self.table}.items()", f"list({self.table}.items())", f"sorted({self.table}.items())") and isinstance(g.target, ast.Tuple) \
+                and len(g.target.elts) == 2 and all(isinstance(x, ast.Name) for x in g.target.elts) and norm(dc.key) == g.target.elts[0].id and not g.ifs:
+            # the table rebuilt from itself: {name: f(callers) for name, callers in called_from.items()}
+            keyvar, valvar = g.target.elts[0].id, g.target.elts[1].id
+            old = dict(self.state)
+            new = {}
+            for cls, val in old.items():
+                self.env[valvar] = val
+                new[cls] = self.seval(dc.value, dict(cls=cls, keyvar=keyvar))
+            self.env.pop(valvar, None)
+            self.state = new
+            return
         if not self.is_functions(g.iter):
             raise Unsupported(f"dict comprehension over {norm(g.iter)[:50]}")
         keyvar = g.target.id if isinstance(g.target, ast.Name) else (g.target.elts[0].id if isinstance(g.target, ast.Tuple) and isinstance(g.target.elts[0], ast.Name) else None)
